@@ -33,8 +33,13 @@ def r171(repo, ctx):
     ok = False
     for c in calls:
         kw = U.kwarg(c, 'phases')
-        if kw is not None and U.chain(kw) and U.chain(kw)[-1] == 'phases' and 'mobility_data' in U.chain(kw):
-            ok = True
+        kw = inline(kw, single_defs(f)) if kw is not None else None
+        if kw is not None and isinstance(kw, ast.Attribute) and kw.attr == 'phases':
+            # <record>.phases where the record is what _computeSingleMobility returned for this point
+            rec = kw.value
+            rdef = single_defs(f).get(rec.id) if isinstance(rec, ast.Name) else rec
+            if isinstance(rdef, ast.Call) and U.call_attr(rdef) == '_computeSingleMobility':
+                ok = True
     ctx.check(ok and len(calls) == 1, 'R17.1', HP, 'computeHomogenizationFunction', calls[0] if calls else f,
               'the names of the stable phases (rows of the mobility / fraction arrays) are passed to the post-processing function',
               'the post-processing function is not given the names of the stable phases: it cannot address a phase by name')
